@@ -305,7 +305,30 @@ class Machine:
                     while is_node(it) and it[0] == "paren":
                         it = it[1]
                     if not (is_node(it) and it[0] == "range"):
-                        raise NoEval("for over non-range")
+                        # `for (i, x) in B.iter().enumerate()` / `for x in B.iter()` over an indexable B == the counted loop `for i in 0..B.len()` with x = B[i]
+                        base, enum = it, False
+                        if is_node(base) and base[0] == "mcall" and base[2] == "enumerate" and not base[4]:
+                            base, enum = base[1], True
+                        if is_node(base) and base[0] == "mcall" and base[2] in ("iter", "into_iter") and not base[4]:
+                            base = base[1]
+                        else:
+                            raise NoEval("for over non-range")
+                        pat = e[1]
+                        if enum:
+                            if not (is_node(pat) and pat[0] == "ptuple" and len(pat[1]) == 2 and all(is_node(q) and q[0] == "pident" for q in pat[1])):
+                                raise NoEval("for over non-range")
+                            ipat, xpat = pat[1]
+                        else:
+                            if not (is_node(pat) and pat[0] == "pident"):
+                                raise NoEval("for over non-range")
+                            ipat, xpat = ["pident", "__ministmt_ix", False, False, None], pat
+                        n_ = self.E(["mcall", base, "len", None, []])
+                        for k in range(0, n_):
+                            self.bind(ipat, k)
+                            self.bind(xpat, self.E(["index", base, ["path", ipat[1]]]))
+                            self.block(e[3])
+                        last = None
+                        continue
                     lo, hi = self.E(it[1]) if it[1] is not None else 0, self.E(it[2])
                     if it[3]:
                         hi += 1
